@@ -21,6 +21,7 @@ Two families of cases:
 """
 import gc, random
 from lib import terms
+from props import c03_sweep
 from lib.terms import g_term, g_list, g_pair, g_nat
 
 ID = 'C03'
@@ -173,6 +174,8 @@ def _model_prog(case, io):
         'true' if case.get('pyend') else 'false')
 
 def model_expr(case, io=None):
+    if case['kind'] == 'sweep':
+        return None                 # oracle-only family (the exact point of RecursionError is outside the model)
     if case['kind'] == 'sched':
         return _model_sched(case)
     if case['kind'] != 'gen':
@@ -747,6 +750,8 @@ def gen(rng, tier):
     cases = [_gen_gen_case(rng) for _ in range(ngen)]
     cases += [_gen_sched_case(rng) for _ in range(500 if tier == 'quick' else 8000)]
     cases += [_gen_prog_case(rng) for _ in range(nprog)]
+    # queries ended by RecursionError at EVERY depth (c03_sweep.py); drawn last, so the cases above are those of earlier rounds
+    cases += [{'kind': 'sweep', 'spec': c03_sweep.gen_spec(rng, tier)} for _ in range(90 if tier == 'quick' else 1500)]
     return cases
 
 def builtin_corpus():
@@ -799,10 +804,20 @@ def builtin_corpus():
         p(src4, ['wrap', [v(0)]], 1, mode, 2)
     p([['w', [V('X')], ['and', [C('d0', V('X'), V('Y')), C('d0', V('Y'), V('Z'))]]]], ['w', [v(0)]], 1, 'del', 1,
       dyn=[('d0', [a, b]), ('d0', [b, v(0)]), ('d0', [v(0), v(0)])])
-    return L + P
+    # recursion-limit sweeps: every top-level goal shape over the plainest builder, every wrapper of the recursive call under findall
+    S = []
+    base = {'n': 12, 'counter': 'peano', 'cons': 'cons', 'place': 'head', 'wrap': 'plain', 'base': 'first', 'top': 'plain',
+            'direct': False, 'via': 'both', 'lo': 3, 'step': 1, 'hi': 420, 'probe_n': 1}
+    for top in sorted(set(c03_sweep.TOPS)):
+        S.append({'kind': 'sweep', 'spec': dict(base, top=top)})
+    for wrap in sorted(set(c03_sweep.WRAPS)):
+        S.append({'kind': 'sweep', 'spec': dict(base, wrap=wrap, top='findall', direct=True, n=8, counter='list')})
+    return L + P + S
 
 def impl(case):
     try:
+        if case['kind'] == 'sweep':
+            return c03_sweep.impl(case)
         if case['kind'] == 'gen':
             return _impl_gen(case)
         if case['kind'] == 'sched':
@@ -889,6 +904,8 @@ def _compare_sched(case, io, mo):
     return None
 
 def compare(case, io, mo):
+    if case['kind'] == 'sweep':
+        return None
     if case['kind'] == 'sched':
         return _compare_sched(case, io, mo)
     if case['kind'] != 'gen':
@@ -921,6 +938,8 @@ def compare(case, io, mo):
 def oracle(case, io):
     if not isinstance(io, dict):
         return None
+    if case['kind'] == 'sweep':
+        return c03_sweep.oracle(case, io)
     if case['kind'] == 'sched':
         if io['maxyields'] > 1:
             return 'a unification generator yielded more than once'
@@ -977,6 +996,8 @@ def oracle(case, io):
 def nontrivial(case, io):
     if not isinstance(io, dict):
         return False
+    if case['kind'] == 'sweep':
+        return c03_sweep.nontrivial(case, io)
     if case['kind'] == 'sched':
         # some generator is started after a later-created one, or not directly after its creation, and >= 2 cells get bound
         evs = case['events']
@@ -995,6 +1016,8 @@ def nontrivial(case, io):
     return io['maxbound'] >= 2 and (io['k'] < len(io['ref']) or e1.startswith('raised'))
 
 def describe(case):
+    if case['kind'] == 'sweep':
+        return c03_sweep.describe(case)
     if case['kind'] == 'sched':
         def ev(e):
             if e[0] != 'create':
@@ -1024,6 +1047,9 @@ def describe(case):
             'mode': case['mode'], 'k': case['k'], 'pyp_raises_at_call': case['j'] if case['mode'] == 'pyraise' else None}
 
 def shrink(case):
+    if case['kind'] == 'sweep':
+        yield from c03_sweep.shrink(case)
+        return
     if case['kind'] == 'sched':
         evs = case['events']
         for i in range(len(evs)):
@@ -1080,7 +1106,10 @@ def distribution(cases, obs):
          'prog_maxbound': {}, 'cyc-or-deep': 0, 'stack-fails': 0}
     def inc(m, k):
         m[str(k)] = m.get(str(k), 0) + 1
+    d.update(c03_sweep.distribution(cases, obs))
     for c, o in zip(cases, obs):
+        if c['kind'] == 'sweep':
+            continue
         if c['kind'] == 'sched':
             d['sched'] = d.get('sched', 0) + 1
             inc(d.setdefault('sched_style', {}), c.get('style'))
